@@ -8,16 +8,16 @@ TECH = 'Verus contracts on functions extracted verbatim from /repo (deductive, Z
 
 CHECKS = {
     'C01': dict(
-        text='Proof of per-function obligations (partial): W -- the significant words (tokens evaluation can see, and comments) of a node are carried by the document in the same order in every layout, nothing added, dropped, duplicated or reordered -- for the flow engine, 14 flow-based converters and their wrappers, the leaf converters, the dispatchers convert_expr/convert_expr_impl/convert_pattern, func_call.rs (callee + parenthesized part + trailing content blocks), the list engine (items + free comments + pending `#` carry exactly the words of the children consumed; print_doc in all three fold styles emits delimiters + those words) and convert_array/destructuring/params/parenthesized_impl built on it, convert_binary, convert_math and the markup engine (line representation == children in order; one piece per entry); the mode/parenthesis guard G (exact shape of optional_paren; only self-delimited constructs go unprotected; bodies evaluated in continued-code mode); the paren-removal gate; the table reflow gate; exact spacing contract of the flow engine; exact Context/Mode helpers (also Kani, complete); exact newline recognition.',
-        note="Partial: W is ASSUMED (clause `words_preserved assumed`, listed in evidence) for dict, equation, the chain- and table-based converters, import, raw, field access, content block and for the functions outside the verifier's reach (closures capturing &mut); context passing: unwrapped bodies keep the context they were given (exact postcondition over the uninterpreted expr_doc_s); the parser and the renderer are outside the contracts, so tree equivalence itself is never concluded. Known findings C01-F2..F5 are printed, not proved. Trusted: shims, parser facts PF0-PF13 (validated on the corpus in the thorough tier).",
+        text='Proof of per-function obligations (partial): W -- the significant words (tokens evaluation can see, and comments) of a node are carried by the document in the same order in every layout, nothing added, dropped, duplicated or reordered -- for the flow engine, 16 flow-based converters (named and keyed pairs included) and their wrappers, the leaf converters, the dispatchers convert_expr/convert_expr_impl/convert_pattern, func_call.rs (callee + parenthesized part [convert_parenthesized_args proved from the list engine] + trailing content blocks; convert_args_in_math proved from the flow engine, every `,` and `;` re-emitted), the list engine (items + free comments + pending `#` carry exactly the words of the children consumed; print_doc in all three fold styles emits delimiters + those words) and convert_array/destructuring/params/parenthesized_impl built on it, convert_binary, convert_math and the markup engine (line representation == children in order; one piece per entry); the mode/parenthesis guard G (exact shape of optional_paren; only self-delimited constructs go unprotected; bodies evaluated in continued-code mode; the code argument printers are never used in math; the items of a row of a 2-d math argument stay in math mode; binary-chain operator text comes from the operand itself); the paren-removal gate; the table reflow gate; exact spacing contract of the flow engine; exact Context/Mode helpers (also Kani, complete); exact newline recognition.',
+        note="Partial: W is ASSUMED (clause `words_preserved assumed`, listed in evidence) for dict, equation, the chain- and table-based converters, import, raw, math_delimited, reference, convert_additional_args, and for convert_closure / convert_for_loop (their look-ahead state sits behind an untracked cell, rule R29: proved in every state is only that whatever is emitted for a child carries exactly that child's words); context passing: unwrapped bodies keep the context they were given (exact postcondition over the uninterpreted expr_doc_s); the parser and the renderer are outside the contracts, so tree equivalence itself is never concluded. Known findings C01-F2..F5 are printed, not proved. Trusted: shims, parser facts PF0-PF18 (validated on the corpus in the thorough tier).",
         ref='DESIGN.md 5/C01', technique=TECH),
     'C04': dict(
         text='Proof of per-function obligations (partial): line-comment transformer safety T -- over every layout the renderer can choose, no text ever follows an unterminated `//` comment and every converter result ends outside a comment -- for the flow, list, chain and plain layout engines, the markup and math engines and every converter built on them; the optional-parenthesis guard G (exact shape of optional_paren; unprotected only for self-delimited constructs; body evaluated in continued-code mode, delimiters matching the mode).',
-        note="Partial: functions outside the verifier's reach (DESIGN 3) are contract-only stubs; token fusion is covered only by the exact push_doc spacing contract (known findings C04-F2..F6 are of that kind). Trusted: parser facts (prelude/treefacts.rs; known exclusion: raw text lines starting with //), pretty shim, renderer only ever picks a layout in the join semantics of T.",
+        note="Partial: the few functions still outside the verifier's reach (DESIGN 3: try_convert_dot_chain_plain, resolve_*_chain) are contract-only stubs; token fusion is covered only by the exact push_doc spacing contract (known findings C04-F2..F7 are of that kind). Trusted: parser facts (prelude/treefacts.rs; known exclusion: raw text lines starting with //), pretty shim, renderer only ever picks a layout in the join semantics of T.",
         ref='DESIGN.md 5/C04', technique=TECH),
     'C06': dict(
         text='Proof of per-function obligations (partial): W over words AND comments (so a comment keeps its order and its neighbouring words) for the functions listed under C01; T (no comment absorbs code, no code inside a comment) for all four layout engines and the markup/math engines; line comments re-emitted as Text(token text), block comments as aligned plain lines cut only by ASCII leading blanks; list attach/detach never reorders or loses a comment; chain items never drop a comment; the attribute pass flags every node with a comment child; has_linebreak/count_linebreaks recognise every Typst newline.',
-        note='Partial: W is proved for the list engine and array/destructuring/params/parenthesized, assumed for dict/equation/chain/table-based converters (listed in evidence). Known findings C06-F2 printed. Trusted: parser facts, shims.',
+        note='Partial: W is proved for the list engine and array/destructuring/params/parenthesized/argument lists, assumed for dict/equation/chain/table-based converters and import (listed in evidence). Known findings C06-F2 printed. Trusted: parser facts, shims.',
         ref='DESIGN.md 5/C06', technique=TECH),
     'C12': dict(
         text='Proof of per-function obligations (partial): N -- every Nest a function under contract builds has amount config.tab_spaces, and '
@@ -37,8 +37,10 @@ CHECKS = {
         text='Proof: the attribute pass marks exactly the spans given by the declarative spec marks_sub (directive comments and the first '
              'sibling after a directive that is not whitespace, `#` or a comment; marked nodes are not descended into); '
              'is_format_disabled reads that mark; convert_expr / convert_pattern / convert_math / convert_code_block emit '
-             'Text(full source text) when the node is marked.',
-        note='Not covered: that every syntactic position routes through one of the four entry points (call-graph fact). Trusted: FxHashMap '
+             'Text(full source text) when the node is marked; routing: every flow producer, list-item closure, item dispatcher '
+             '(array item, dict item, param, destructuring item, arg), argument closure and the loop of convert_math hands a marked '
+             'expression child to one of these entry points (clause marked_expression_is_emitted_verbatim).',
+        note='Not covered: positions whose producer depends on untracked state (closure / for-loop heads, R29) and the markup body of a list item (known finding C07-F1). Trusted: FxHashMap '
              'entry/or_default shim, str::contains shim, typst-syntax tree model, definitional axiom of marks_sub.',
         ref='DESIGN.md 5/C07', technique=TECH),
     'C08': dict(
@@ -51,7 +53,9 @@ CHECKS = {
              'between; convert_math_delimited keeps the whitespace token after the opening and before the closing delimiter as exactly a '
              'blank / mandatory break; convert_equation / convert_math_attach/frac/root verified for comment safety against the '
              'list/flow engines.',
-        note='Partial: convert_args_in_math is a contract-only stub (closure capturing &mut); the spacing chosen by the flow engine between '
+        note='convert_args_in_math (verified with its body through rule R29): a line break in an argument list stays a line break, a blank '
+             'around a separator never becomes one, every `,` and `;` is re-emitted, only parentheses and blanks are stripped at the '
+             'edges; the code argument printers are never used in math mode. Partial: the spacing chosen by the flow engine between '
              'the operands of attach/frac/root is covered only by the exact push_doc contract. '
              'Trusted: shims, parser facts.',
         ref='DESIGN.md 5/C09', technique=TECH),
@@ -77,26 +81,28 @@ CHECKS = {
     'C14': dict(
         text='Proof of the safety half: every write (std::fs::write) and every print of text carries the precondition !check, discharged '
              'on every path of format_one / format_all; FormatStatus::bitor_assign is an OR; main maps (Err | Changed&&check) to failure; '
-             'format_one status is Changed iff the content it read differs from its formatted form; erroneous input counts as unchanged.',
-        note='Out of reach: mtimes, sequences of invocations, format_many accumulation (closure captures &mut: contract assumed). '
+             'format_one status is Changed iff the content it read differs from its formatted form; erroneous input counts as unchanged; '
+             'format_many (verified with its body, rules R31/R32): the accumulated status is Changed only if some named file differs and '
+             'Unchanged only if none does (relative to what was read in this run); its error counter cannot overflow.',
+        note='Out of reach: mtimes, sequences of invocations; that an I/O error in format_many yields Err is read, not stated. '
              'Trusted: environment shims (shims/cli.rs), clap conflicts_with, single argument vector the_args().',
         ref='DESIGN.md 5/C14', technique=TECH),
     'C15': dict(
         text='Proof of the safety half: what is written to a path is the library result for exactly what was read from that path, only if '
              'it differs, only for eligible entries (named on the command line, or walked regular *.typ entry not hidden), never in check '
              'mode; the walk filter accepts the root entry.',
-        note='Out of reach: completeness (every eligible changed file IS written), error isolation in format_many, mtimes. Trusted: '
+        note='Out of reach: completeness (every eligible changed file IS written), mtimes; error isolation in format_many is proved only as "the loop calls format_one on every named file with its precondition". Trusted: '
              'walkdir/std::fs shims.',
         ref='DESIGN.md 5/C15', technique=TECH),
     'C16': dict(
         text='Proof: to_config is field-exact; Config::default/new are the documented defaults; every text-emitting call satisfies '
              'may_print (exactly the library result for the input read, or the input itself when erroneous; no added newline); '
              'format_with_width returns the input on refusal.',
-        note='Multi-file order in format_many is read, not proved (assumed contract). Trusted: environment shims.',
+        note='format_many is verified with its body (each named file goes through format_one with its precondition, in loop order); that the concatenated output is in argument order is the loop order and is not stated as a clause. Trusted: environment shims.',
         ref='DESIGN.md 5/C16', technique=TECH),
     'C19': dict(
         text='Proof: at the sort site of convert_import_items the items are only ever permuted, and keep their order unless the option is '
-             'on, no item is a comment and the bound names are pairwise distinct; check_import_name_duplication returns true iff the bound '
+             'on, the import statement contains no comment at any depth (contains_comment, verified against its recursive definition; fix ba7a324) and the bound names are pairwise distinct; convert_import (verified with its body) hands the sort site the whole statement and exactly its items; check_import_name_duplication returns true iff the bound '
              'names (last path segment / name after `as`) are pairwise distinct; Config::default has the option off; to_config passes the flag.',
         note='Not covered: that nothing else in the output differs (the flag is read only at this site: a grep-level fact). Trusted: sort_by_key '
              'is a permutation (shim), HashSet insert shim, accessor shims for bound names.',
